@@ -422,7 +422,7 @@ func (c CookiePlaceholder) pack(buf []byte, pos int) (int, error) {
 	newlen := (origlen + 3) & ^3
 	padding := make([]byte, newlen-origlen)
 
-	c.extHdr.Type = extCookie
+	c.extHdr.Type = extCookiePlaceholder
 	c.extHdr.Length = 4 + uint16(newlen)
 	pos = c.extHdr.pack(buf, pos)
 
